@@ -254,10 +254,10 @@ def run(pid, tier):
 def run_into(chk, pid, binary, sc, tier):
     if True:
         kf = replay_findings(pid, binary, sc)
-        pool = "<<1,2,3,4,5,6,7,8,9,10,11,12,13,14,15,16,17,18>>"
+        pool = "<<1,2,3,4,5,6,7,8,9,10,11,12,13,14,15,16,17,18,19,20>>"
         maxfiles = 3 if tier == "quick" else 4
         if tier == "thorough":
-            pool = "<<1,2,3,4,5,6,7,8,10,11,12,13,14,15,16,18>>"
+            pool = "<<1,2,3,4,5,6,7,8,10,11,12,13,15,16,18,19,20>>"
         cfg = CFG % {"setat": "MCSetAt", "numsets": "MCNumSets", "devs": DEVS_CURRENT, "extra": "  MaxFiles = %d\n  PoolSeq <- PoolSeqV" % maxfiles}
         res = run_tlc("MergeMC", cfg, sc, cache=True, timeout=3000, defs="PoolSeqV == " + pool)
         if res.violated:
@@ -309,9 +309,9 @@ def random_sets(n, seed):
             for _ in range(rng.randint(0, 3)):
                 kind = rng.choice(["type", "ext", "ext"])
                 name = rng.choice(["t", "u", "v", "w", "tx", "a"] if kind == "type" else ["t", "u", "v", "t", "u", "z"])
-                rels = rng.sample(["r", "s", "x", "y"], rng.randint(0, 3))
+                rels = rng.sample(["r", "s", "x", "y", "R", "S"], rng.randint(0, 3))
                 decls.append({"kind": kind, "name": name, "rels": rels})
-            conds = rng.sample(["c", "d", "e"], rng.choice([0, 0, 1, 1, 2]))
+            conds = rng.sample(["c", "d", "e", "C"], rng.choice([0, 0, 1, 1, 2]))
             files.append({"name": "f%d.fga" % (i + 1), "header": header, "decls": decls, "conds": conds, "loose": rng.random() < 0.4, "eol": "\r\n" if rng.random() < 0.3 else "\n"})
         # make most sets plausible: the first file declares the popular types
         if rng.random() < 0.7:
